@@ -46,7 +46,8 @@ std::string AzimuthString(real azi, int prec, bool dms, char dmssep) {
 }
 
 std::string DistanceStrings(real s12, real a12,
-                            bool full, bool arcmode, int prec, bool dms) {
+                            bool full, bool arcmode, int prec, bool dms,
+                            char dmssep) {
   using namespace GeographicLib;
   std::string s;
   if (full || !arcmode)
@@ -54,7 +55,7 @@ std::string DistanceStrings(real s12, real a12,
   if (full)
     s += " ";
   if (full || arcmode)
-    s += DMS::Encode(a12, prec + 5, dms ? DMS::NONE : DMS::NUMBER);
+    s += DMS::Encode(a12, prec + 5, dms ? DMS::NONE : DMS::NUMBER, dmssep);
   return s;
 }
 
@@ -310,7 +311,7 @@ int main(int argc, const char* const argv[]) {
             azi2 = copysign(azi2 + copysign(real(Math::hd), -azi2), -azi2);
           }
           *output << AzimuthString(azi2, prec, dms, dmssep) << " "
-                  << DistanceStrings(s12, a12, full, arcmode, prec, dms);
+                  << DistanceStrings(s12, a12, full, arcmode, prec, dms, dmssep);
           if (full)
             *output << " " << Utility::str(m12, prec)
                     << " " << Utility::str(M12, prec+7)
@@ -353,7 +354,7 @@ int main(int argc, const char* const argv[]) {
                   << " " << AzimuthString(azi2, prec, dms, dmssep);
           if (full)
             *output << " "
-                    << DistanceStrings(s12, a12, full, arcmode, prec, dms)
+                    << DistanceStrings(s12, a12, full, arcmode, prec, dms, dmssep)
                     << " " << Utility::str(m12, prec)
                     << " " << Utility::str(M12, prec+7)
                     << " " << Utility::str(M21, prec+7)
